@@ -4,7 +4,7 @@ import vlib
 
 KINDS = ["load-result", "serving-mismatch", "listening-mismatch", "leftover-runner", "harness-problem",
          "refused-on-retained", "common-key-rejected", "wrong-attribution", "handled-not-once", "datagram-lost",
-         "connection-unhandled", "relay-interrupted"]
+         "connection-unhandled", "relay-interrupted", "client-exposed", "process-panic"]
 OVERLAY = {"zz_verif_reload_test.go": os.path.join(vlib.ROOT, "harness", "overlay", "main", "reload_test.go"),
            "zz_verif_handover_test.go": os.path.join(vlib.ROOT, "harness", "overlay", "main", "handover_test.go")}
 
@@ -73,10 +73,11 @@ def run_harness(ctx, scenarios, name, run_re="TestVerifReload", timeout=1500):
 
 def parse_result(r):
     for ln in r.prints + r.out.splitlines():
-        m = re.match(r'^<<"RESULT", (\d+), (\d+), (\d+), <<([\d, ]+)>>>>', ln.strip())
+        m = re.match(r'^<<"RESULT", (\d+), (\d+), (\d+), <<([\d, ]+)>>, (\d+)>>', ln.strip())
         if m:
             vio = [int(x) for x in m.group(4).split(",")]
-            return dict(lines=int(m.group(1)), nscen=int(m.group(2)), nprobe=int(m.group(3)), vio=dict(zip(KINDS, vio)))
+            return dict(lines=int(m.group(1)), nscen=int(m.group(2)), nprobe=int(m.group(3)), vio=dict(zip(KINDS, vio)),
+                        ndrift=int(m.group(5)))
     return None
 
 
@@ -88,7 +89,7 @@ def scenario_slice(rows, line):
     return rows[start:i + 1]
 
 
-def judge(ctx, tf, desc, pid, kind_text, scenarios=None):
+def judge(ctx, tf, desc, pid, kind_text, scenarios=None, only=None):
     rows = vlib.read_ndjson(tf)
     ok, r = vlib.validate_traces(ctx, "ReloadTrace", "ReloadTrace.cfg", tf, timeout=900)
     res = parse_result(r)
@@ -97,8 +98,11 @@ def judge(ctx, tf, desc, pid, kind_text, scenarios=None):
     ctx.cov["traces_validated_against_impl"] += res["nscen"]
     ctx.cov.setdefault("probes", 0)
     ctx.cov["probes"] += res["nprobe"]
+    if res.get("ndrift"):
+        ctx.cov["drift"] += res["ndrift"]
+        ctx.notes.append("drift: %d expositions whose keys/ports gauges differ from the loaded configuration (%s)" % (res["ndrift"], desc))
     for k, line in res["vio"].items():
-        if line and k != "harness-problem":
+        if line and k != "harness-problem" and (only is None or k in only):
             sl = scenario_slice(rows, line)
             last_load = [x for x in sl if x.get("ev") == "Load"]
             ctx.violation({"module": "Reload", "kind": k, "after": kind_after(sl)},
@@ -124,3 +128,36 @@ def kind_after(sl):
     if last["cfg"].get("kind") != "ok":
         return "failed-load:" + last["cfg"]["kind"]
     return "failed-load:start"
+
+
+def build_server(ctx):
+    """the real binary, built from the working tree (no hooks: plain release build)"""
+    out = os.path.join(ctx.sub("bin"), "outline-ss-server")
+    mf = ctx.sub("modfile-bin")
+    import shutil, subprocess
+    shutil.copy(os.path.join(vlib.REPO, "go.mod"), os.path.join(mf, "go.mod"))
+    shutil.copy(os.path.join(vlib.REPO, "go.sum"), os.path.join(mf, "go.sum"))
+    p = subprocess.run(["go", "build", "-modfile", os.path.join(mf, "go.mod"), "-o", out, "./cmd/outline-ss-server"],
+                       cwd=vlib.REPO, env=vlib.goenv(), stdout=subprocess.PIPE, stderr=subprocess.STDOUT, text=True)
+    if p.returncode != 0:
+        raise vlib.Inconclusive("cannot build outline-ss-server from the working tree:\n" + p.stdout[-3000:])
+    return out
+
+
+def run_process(ctx, scenarios, name, timeout=1500):
+    """process level (L4a): the real binary as a subprocess, SIGHUP reloads, observed through sockets, /metrics, logs"""
+    server = build_server(ctx)
+    drv = vlib.go_build(ctx, "./cmd/procdrive", "procdrive", tags="")
+    inp = os.path.join(ctx.scratch, name + ".in.json")
+    out = os.path.join(ctx.scratch, name + ".ndjson")
+    ports = free_ports(6 * len(scenarios), ctx.seed + 100 + len(name))
+    for i, sc in enumerate(scenarios):
+        sc["ports"] = ports[6 * i:6 * i + 6]
+    json.dump({"scenarios": scenarios}, open(inp, "w"))
+    rc, o, e = vlib.run([drv, "-bin", server, "-in", inp, "-out", out], env=vlib.goenv(), timeout=timeout)
+    if rc != 0 or not os.path.exists(out):
+        raise vlib.Inconclusive("procdrive failed (rc=%d): %s" % (rc, e[-2000:]))
+    rows = vlib.read_ndjson(out)
+    if not rows or rows[-1].get("ev") != "Done":
+        raise vlib.Inconclusive("procdrive did not finish: %s" % e[-1500:])
+    return out
